@@ -1280,7 +1280,53 @@ def _fold_defaults(node: ast.AST):
                     last_const = {}
 
 
+KNOWN_MODULES = {'AMHL', '__init__', '__main__', 'classes', 'errors', 'functions', 'interfaces', 'parsing', 'tools', 'version'}
+
+
+def _absorb_new_modules(modules: dict) -> int:
+    """A package module the rules do not know (code moved out of functions.py / parsing.py / tools.py / classes.py
+    into a new file and imported back) is read where it is imported: `from .newmod import a, b` in a known
+    module is replaced by the new module's own top-level statements (its imports, tables and definitions),
+    except names the importing module defines itself.  The known modules then look as before the move."""
+    import copy as _copy
+    new = [mn for mn in modules if mn not in KNOWN_MODULES]
+    if not new:
+        return 0
+    done = 0
+    for _ in range(3):                      # a new module may import from another new module
+        changed = False
+        for kn, k in modules.items():
+            out = []
+            own = {st.name for st in k.tree.body if isinstance(st, (ast.FunctionDef, ast.ClassDef))}
+            for st in k.tree.body:
+                if isinstance(st, ast.ImportFrom) and st.level == 1 and st.module in new and kn != st.module:
+                    src = modules[st.module]
+                    for x in src.tree.body:
+                        if isinstance(x, ast.ImportFrom) and x.level == 1 and x.module == kn:
+                            continue            # import back into the module we are in
+                        if isinstance(x, (ast.FunctionDef, ast.ClassDef)) and x.name in own:
+                            continue
+                        if isinstance(x, ast.Expr) and isinstance(x.value, ast.Constant):
+                            continue            # module docstring
+                        out.append(_copy.deepcopy(x))
+                    # names imported under an alias keep working
+                    for al in st.names:
+                        if al.asname and al.asname != al.name:
+                            asg = ast.Assign(targets=[ast.Name(id=al.asname, ctx=ast.Store())],
+                                             value=ast.Name(id=al.name, ctx=ast.Load()))
+                            out.append(ast.fix_missing_locations(ast.copy_location(asg, st)))
+                    done += 1
+                    changed = True
+                    continue
+                out.append(st)
+            k.tree.body = out
+        if not changed:
+            break
+    return done
+
+
 def normalise(modules: dict) -> dict:
+    nabs = _absorb_new_modules(modules)
     ntab = _expand_table_arms(modules)
     nconst = _propagate_constants(modules)
     n = 0
@@ -1318,4 +1364,5 @@ def normalise(modules: dict) -> dict:
     notes['conditional_assignments'] = ncond
     notes['table_arms_expanded'] = ntab
     notes['aliases_resolved'] = nalias
+    notes['modules_absorbed'] = nabs
     return notes
